@@ -4,8 +4,8 @@ cd "$(dirname "$0")/.."
 TIER=${1:-quick}
 for id in C01 C05 C06 C07 C08 C09 C10 C11 C12 C13 C14 C15 C16 C17 C18 C19; do
   s=$(date +%s)
-  ./check $id --tier $TIER > /tmp/run_$id.log 2>&1
+  ./check $id --tier $TIER > ${LOGDIR:-/tmp}/run_$id.log 2>&1
   rc=$?
   e=$(date +%s)
-  echo "$id exit=$rc wall=$((e-s))s $(grep -c '^VIOLATION' /tmp/run_$id.log) violations $(grep -c 'inconclusive ' /tmp/run_$id.log) inconclusive-lines"
+  echo "$id exit=$rc wall=$((e-s))s $(grep -c '^VIOLATION' ${LOGDIR:-/tmp}/run_$id.log) violations $(grep -c 'inconclusive ' ${LOGDIR:-/tmp}/run_$id.log) inconclusive-lines"
 done
